@@ -295,6 +295,7 @@ fn execute(plan: &Value, w: &World, cfg: &Cfg, slot: usize) -> Outcome {
     };
     let pre: Option<Vec<u8>> = match plan["output"].as_str() {
         Some("text") => Some(OLD_TEXT.to_vec()),
+        Some("empty") => Some(vec![]),
         // longer than anything the endpoint serves: leftovers show if the file is not truncated
         Some("long-text") => Some(OLD_TEXT.repeat(7000)),
         // an old schema saved by a tool that writes UTF-16 / Latin-1: not valid UTF-8
@@ -318,8 +319,19 @@ fn execute(plan: &Value, w: &World, cfg: &Cfg, slot: usize) -> Outcome {
         _ => None,
     };
     let pre = if sink_full { None } else { pre };
+    // `symlink`: the --output path is a symbolic link to a file holding old text; whatever the
+    // tool does, reading through the path afterwards must give the JSON (success) or the old text
+    let via_symlink = plan["output"] == "symlink" && !sink_full;
+    let pre = if via_symlink { Some(OLD_TEXT.to_vec()) } else { pre };
     if let Some(p) = &pre {
-        std::fs::write(&out_path, p).unwrap();
+        if via_symlink {
+            let target = out_path.parent().unwrap_or(&dir).join("real-target.dat");
+            std::fs::write(&target, p).unwrap();
+            let _ = std::fs::remove_file(&out_path);
+            std::os::unix::fs::symlink("real-target.dat", &out_path).unwrap();
+        } else {
+            std::fs::write(&out_path, p).unwrap();
+        }
     }
     let endpoint = server::Endpoint::start(built.behaviour.clone());
     let https = plan["script"]["https"].as_bool().unwrap_or(false);
@@ -391,7 +403,7 @@ fn execute(plan: &Value, w: &World, cfg: &Cfg, slot: usize) -> Outcome {
     // files next to the output that were not there before
     let strays: Vec<String> = if sink_full { vec![] } else {
         let parent = out_path.parent().unwrap_or(&dir).to_path_buf();
-        std::fs::read_dir(&parent).map(|rd| rd.filter_map(|e| e.ok()).map(|e| e.file_name().to_string_lossy().to_string()).filter(|n| n != oname && n != "sub" && !n.starts_with("written") && n != "A" && n != "B").collect()).unwrap_or_default()
+        std::fs::read_dir(&parent).map(|rd| rd.filter_map(|e| e.ok()).map(|e| e.file_name().to_string_lossy().to_string()).filter(|n| n != oname && n != "sub" && n != "real-target.dat" && !n.starts_with("written") && n != "A" && n != "B").collect()).unwrap_or_default()
     };
     let mut v: Vec<Violation> = vec![];
     let mut push = |class: &str, detail: String| v.push(Violation { class: class.to_string(), detail });
